@@ -473,3 +473,42 @@ def mon_c10(run, world):
                     if stt in ("RELEASED", "VIRTUAL") and t not in seen and world["flags"]["scheduler"] in ("EDF", "FIFO", "LSF", "ILP", "TetriSched_Gurobi", "TetriSched_CPLEX"):
                         bad.append("offered task %s got no answer from %s at %s" % (t, world["flags"]["scheduler"], now))
     return bad
+
+
+def mon_c11(run, world):
+    """planners order children after parents: decisions returned during whole simulations"""
+    bad = []
+    # (the property names ILP, TetriSched-Gurobi and Z3; the CPLEX formulation has no precedence rows at all)
+    if world.get("fuzz") or world["flags"]["scheduler"] not in ("ILP", "TetriSched_Gurobi"):
+        return bad
+    info = graph_info(run)
+    state = {}
+    started = {}
+    for e in run["log"]:
+        if e[0] == "graph":
+            for t in e[1]["tasks"]:
+                state[t["name"]] = t["state"]
+        elif e[0] == "task" and e[5] != "ERR":
+            state[e[2]] = e[5]
+            if e[1] == "start":
+                started[e[2]] = (e[3], e[6][0])
+        elif e[0] == "decisions":
+            now = e[1]
+            placed = {d[1]: (d[5], d[7]) for d in e[2] if d[0] == "PLACE_TASK" and d[3] is not None}
+            decided = {d[1] for d in e[2] if d[0] == "PLACE_TASK"}
+            for t, (pt, rt) in placed.items():
+                ti = info.get(t)
+                if not ti:
+                    continue
+                for p in ti["parents"]:
+                    if ti["terminal"] and info.get(p, {}).get("prob", 1.0) == 0.0:
+                        continue
+                    if p in decided and p not in placed and not ti["terminal"]:
+                        bad.append("%s placed at %s although its co-decided parent %s was left unplaced (now=%s)" % (t, pt, p, now))
+                    if p in placed and placed[p][1] is not None and pt < placed[p][0] + placed[p][1]:
+                        bad.append("%s placed at %s, before its parent %s placed at %s with runtime %s ends" % (t, pt, p, placed[p][0], placed[p][1]))
+                    if p not in decided and state.get(p) == "RUNNING" and p in started:
+                        s, d = started[p]
+                        if pt < s + d:
+                            bad.append("%s placed at %s, before its running parent %s finishes at %s" % (t, pt, p, s + d))
+    return bad
